@@ -178,10 +178,15 @@ func verifRefDoc(kind int, ref string) *T {
 	return doc
 }
 
-//verif:harness id=C11 tier=quick,thorough witness=end bounds="reference text = every string of 1-4 bytes over {#,/,.,:,a,j} placed at each of 12 positions (ten resolver kinds, schema in header, array items) of an in-memory document; ResolveRefsIn with a file location or without; external references disallowed: no location other than the root's own may be passed to ReadFromURIFunc"
-func verifH_C11_symbolic_ref() {
+//verif:harness id=C11 tier=quick witness=end bounds="reference text = every string of 1-4 bytes over {#,/,.,:,a,j} placed at each of 12 positions (ten resolver kinds, schema in header, array items) of an in-memory document; ResolveRefsIn with a file location or without; external references disallowed: no location other than the root's own may be passed to ReadFromURIFunc"
+func verifH_C11_symbolic_ref() { verifC11SymbolicRef(4) }
+
+//verif:harness id=C11 tier=thorough witness=end bounds="as symbolic_ref with reference texts of 1-6 bytes"
+func verifH_C11_symbolic_ref6() { verifC11SymbolicRef(6) }
+
+func verifC11SymbolicRef(maxLen int) {
 	kind := verifChoose("kind", 12)
-	n := 1 + verifChoose("len", 4)
+	n := 1 + verifChoose("len", maxLen)
 	bs := make([]byte, n)
 	for i := range bs {
 		bs[i] = verifNondetByteIn("r", "#/.:aj")
